@@ -6,7 +6,7 @@ import c13_impl as B, c13_gen as G, c16_impl as I
 
 ID = 'C16'
 LEVEL = 'proof'
-PROPS = ['Props/C16.v', 'Findings/C16.v']
+PROPS = ['Props/C16.v']
 TRUSTED = [
     'hand-written model coq/Model/C16Flush.v of SessionCache.flush / Entity._save_ / _save_principal_objects_ (queue order, recursive saving of referenced new '
     'objects with the shared dependent_objects list, link-row removals first and additions last) and of a database that checks foreign keys per statement; '
@@ -39,6 +39,9 @@ SCEN = [
                                                      ["rem", 0, 7, [1]], ["new", 0, 2, [[5, ["i", 0]], [7, ["os", [1, 2]]]]], ["commit"], ["del", 1], ["del", 3], ["commit"]]),
     ('s16-chain', 'S16', [["new", 1, 1, []], ["new", 3, 1, []], ["commit"], ["new", 2, 1, [[2, ["o", 1]]]], ["new", 1, 2, []], ["new", 0, 1, [[1, ["o", 3]], [3, ["o", 2]]]],
                           ["set", 0, 2, ["o", 4]], ["commit"]]),
+    # an object deleted in the session is refused as a reference target / collection item (repo 907c292); the commit then goes through
+    ('deleted-object-as-reference-target', 'S1', [["new", 0, 1, [[5, ["i", 0]]]], ["new", 1, 1, []], ["commit"], ["del", 1], ["set", 0, 6, ["o", 1]],
+                                                   ["new", 2, 1, []], ["del", 2], ["add", 0, 7, [2]], ["new", 1, 2, []], ["del", 3], ["set", 0, 6, ["o", 3]], ["commit"]]),
     # cycles between new objects
     ('s16-cycle-2', 'S16', [["new", 1, 1, []], ["new", 0, 1, [[1, ["o", 0]]]], ["set", 0, 2, ["o", 1]], ["commit"]]),
     ('s16-cycle-4', 'S16', [["new", 1, 1, []], ["new", 0, 1, [[1, ["o", 0]]]], ["new", 1, 2, [[2, ["o", 1]]]], ["new", 0, 2, [[1, ["o", 2]]]], ["set", 0, 2, ["o", 3]], ["commit"]]),
@@ -154,9 +157,7 @@ def correspondence(ctx):
         for h, st, cols in fl['pending']['queue']: dist['pending_' + st] += 1
         if len(fl['stmts']) >= 2: nontrivial.add(json.dumps([sname, ops]))
         inp = {'schema': sname, 'ops': ops, 'pending': fl['pending'], 'rows_before': fl['rows']}
-        if fl['pending'].get('dead_refs'):
-            dist['known_reference_to_deleted_object'] += 1        # judged by the search / known-findings path
-            if not wf: continue
+        if fl['pending'].get('dead_refs'): dist['references_to_deleted_objects'] += 1
         if not wf:
             disagreements.append({'what': 'the pending set of a real session is outside wf_pending (hypothesis of C16_order) [%s]' % label, 'input': inp})
         if not same_outcome:
